@@ -34,6 +34,12 @@ def run(ctx):
                       f'append_row branches on `{u}`: whether a token is exported no longer depends only on the selection and the token')
     check_nullish_tables(ctx, 'R4')
     r5_subtoken_filter(ctx)
+    from . import c11, shared
+    ctx.alias = {'R5': 'R6'}
+    c11.r5_selection(ctx)     # the selected set is closure(include) - closure(exclude)
+    ctx.alias = {}
+    shared.effect_free(ctx, 'R6', [f'{N.MAPPER}.valid', f'{N.GENERIC}.Generic.parse_options_to_ExportOptions'],
+                       'the selection must not depend on earlier calls nor alter the caller\'s include / exclude sets')
 
 
 def _kwargs_get(node, kw, key):
